@@ -15,6 +15,8 @@ pub mod c10;
 pub mod c11;
 pub mod c12;
 pub mod c15;
+pub mod c16;
+pub mod c17;
 pub mod c18;
 pub mod c20;
 
@@ -39,6 +41,8 @@ pub fn all() -> Vec<PropDef> {
         PropDef { id: "C11", level: "exploration", run: c11::run, replay: c11::replay },
         PropDef { id: "C12", level: "exploration", run: c12::run, replay: c12::replay },
         PropDef { id: "C15", level: "exploration", run: c15::run, replay: c15::replay },
+        PropDef { id: "C16", level: "exploration", run: c16::run, replay: c16::replay },
+        PropDef { id: "C17", level: "fault_enumeration", run: c17::run, replay: c17::replay },
         PropDef { id: "C18", level: "exploration", run: c18::run, replay: c18::replay },
         PropDef { id: "C20", level: "exploration", run: c20::run, replay: c20::replay },
     ]
